@@ -254,6 +254,8 @@ func c05ReqKeys() []c05ReqKey {
 				c05ReqPD("query", "form", true, "limit", false, intS("max", 100)),
 				c05ReqPD("query", "form", true, "limit", false, c05PS("string")),
 				c05With(c05ReqPD("query", "form", true, "limit", true, intS("min", 0)), "useDefaults", true), // style and explode left to SerializationMethod
+				c05ReqPD("query", "form", true, "limit", false, map[string]any{"k": "anyOf", "alts": []any{intS("max", 10), c05PS("boolean")}}),
+				c05ReqPD("query", "form", true, "limit", false, c05With(c05PS("int32"), "enum", []any{5, 50})), // class EnumGoType (F-C05-2)
 			},
 			values: []any{nil, "5", "50", "500", "abc", "-3"},
 		},
@@ -292,6 +294,7 @@ func c05ReqKeys() []c05ReqKey {
 			variants: []map[string]any{
 				c05ReqPD("cookie", "form", false, "ck", false, intS()),
 				c05ReqPD("cookie", "form", false, "ck", true, c05With(c05PS("string"), "enum", []any{"z", "y"})),
+				c05ReqPD("cookie", "form", true, "ck", false, arrS(c05PS("integer"))), // class CookieExplode (F-C05-1)
 			},
 			values: []any{nil, "3", "z"},
 		},
@@ -328,8 +331,9 @@ func c05GenReq(ctx *hx.Ctx, emit func(hx.Case)) {
 	// (not / variant) and on the operation (not / variant) × both list orders × {plain, exclude-then-plain} × MultiError
 	// × a value menu; the same request is sent on every call
 	two := keys[:2]
-	opt := func(k c05ReqKey) []map[string]any { // the last declaration of each key (keywords defaulted) is left to the stream
-		return append([]map[string]any{nil}, k.variants[:len(k.variants)-1]...)
+	exh := map[string]int{"limit": 3, "X-Seq": 2} // the further declarations (defaulted keywords, compositions, known-finding classes) are left to the stream
+	opt := func(k c05ReqKey) []map[string]any {
+		return append([]map[string]any{nil}, k.variants[:exh[jstr(k.variants[0], "name")]]...)
 	}
 	for _, piL := range opt(two[0]) {
 		for _, opL := range opt(two[0]) {
